@@ -166,6 +166,9 @@ def _same_variant(a, b):
 def mk_proj(base, variant, idx):
     if base[0] == "ctor" and _same_variant(base[1], variant) and isinstance(idx, int) and idx < len(base[2]):
         return base[2][idx]
+    if base[0] == "ctor" and isinstance(base[1], str) and base[1].rsplit("::", 1)[-1] == "Ok" and isinstance(variant, str) \
+            and variant.rsplit("::", 1)[-1] == "Some" and idx == 0 and len(base[2]) == 1:
+        return base[2][0]                     # the closure parameter of a Result combinator is written as a Some-payload
     if base[0] == "ctor" and not _same_variant(base[1], variant):
         return NEVER                          # projecting a variant out of a value built with another one
     if base[0] == "join":
